@@ -145,32 +145,83 @@ class RecStream:
         self.closed = True
 
 
-class RecQueue(list):
-    """`Connection._send_queue`: a list that reports its shared operations"""
+class RecQueue:
+    """`Connection._send_queue`: a recording wrapper around whatever queue object the constructor installed
+    (a `list` on the pinned tree; a `collections.deque` or anything else with the same methods works as well).
+    Every operation is forwarded to the real object, so an operation that type does not have fails exactly as
+    it would in production.  Logged in the model's terms: something put at the BACK is an append, something
+    taken out is a pop of that value (the model checks it is the head), a truth / length test is a queue test;
+    everything else (`insert` elsewhere, `appendleft`, unknown methods) is logged as what it is, which the model
+    does not accept."""
 
-    def bind(self, run):
-        self.run = run
-        return self
+    def __init__(self, inner, run):
+        self.__dict__["inner"] = inner
+        self.__dict__["run"] = run
+
+    def _act(self):
+        self.run.sched.before_action("_send_queue")
+
+    def _put(self, how, x, at_back):
+        run = self.run
+        self._act()
+        if at_back:
+            run.hook("a", "b", "_send_queue")
+        how()
+        if at_back:
+            run.log("a", run.ident(x))
+            run.hook("a", "a", "_send_queue")
+        else:
+            run.log("i", "%s@front" % run.ident(x))
 
     def append(self, x):
-        run = self.run
-        run.sched.before_action("_send_queue")
-        run.hook("a", "b", "_send_queue")
-        list.append(self, x)
-        run.log("a", run.ident(x))
-        run.hook("a", "a", "_send_queue")
+        self._put(lambda: self.inner.append(x), x, True)
+
+    def appendleft(self, x):
+        self._put(lambda: self.inner.appendleft(x), x, len(self.inner) == 0)
 
     def insert(self, pos, x):
+        n = len(self.inner)
+        self._put(lambda: self.inner.insert(pos, x), x, pos >= n or (n == 0))
+
+    def extend(self, xs):
+        for x in list(xs):
+            self.append(x)
+
+    def _take(self, how):
         run = self.run
-        run.sched.before_action("_send_queue")
-        list.insert(self, pos, x)
-        run.log("i", "%s@%s" % (run.ident(x), pos))     # not an action of the model: `_send` only ever appends
+        self._act()
+        run.hook("p", "b", "_send_queue")
+        try:
+            x = how()
+        except IndexError:
+            run.log("P", "IndexError")
+            raise
+        run.log("p", run.ident(x))
+        run.hook("p", "a", "_send_queue")
+        return x
+
+    def pop(self, *idx):
+        return self._take(lambda: self.inner.pop(*idx))
+
+    def popleft(self):
+        return self._take(lambda: self.inner.popleft())
+
+    def __delitem__(self, i):
+        def how():
+            x = self.inner[i]
+            del self.inner[i]
+            return x
+        self._take(how)
+
+    def __getitem__(self, i):
+        self.run.sched.touch("_send_queue")
+        return self.inner[i]
 
     def _test(self):
         run = self.run
-        run.sched.before_action("_send_queue")
+        self._act()
         run.hook("c", "b", "_send_queue")
-        n = list.__len__(self)
+        n = len(self.inner)
         run.log("c", int(n > 0))
         run.hook("c", "a", "_send_queue")
         return n
@@ -181,21 +232,28 @@ class RecQueue(list):
     def __len__(self):
         return self._test()
 
-    def pop(self, *idx):
-        run = self.run
-        run.sched.before_action("_send_queue")
-        run.hook("p", "b", "_send_queue")
-        try:
-            x = list.pop(self, *idx)
-        except IndexError:
-            run.log("P", "IndexError")
-            raise
-        run.log("p", run.ident(x))
-        run.hook("p", "a", "_send_queue")
-        return x
+    def __iter__(self):
+        self.run.sched.touch("_send_queue")
+        return iter(list(self.inner))
+
+    def __getattr__(self, name):
+        attr = getattr(self.inner, name)          # AttributeError here is the real object's
+        if not callable(attr):
+            return attr
+
+        def unknown(*a, **kw):
+            self._act()
+            self.run.log("u", name)                # an operation the model does not know
+            return attr(*a, **kw)
+        return unknown
+
+    def items(self):
+        """(harness only, not logged) the queued data in order"""
+        return list(self.inner)
 
 
 _WIRE_FORM = {}
+_QUEUE_TYPE = []
 
 
 def wire_form(data):
@@ -326,6 +384,7 @@ class Run:
             self.kind[mid] = kind
             self.payload[mid] = (bytes(PAD_BIG) if big else b"", mid)
             self.expected[mid] = brine.dump((self.kind_const[kind], mid, self.payload[mid]))
+            self.big[mid] = len(wire_form(self.expected[mid])) > 1
         try:
             conn = make_connection(RecStream(self))
             self.bare = False
@@ -334,7 +393,15 @@ class Run:
             conn._channel = Channel(RecStream(self))
             self.bare = True
         self.stream = conn._channel.stream
-        conn._send_queue = RecQueue().bind(self)
+        inner = getattr(conn, "_send_queue", None)
+        if inner is None or not hasattr(inner, "append"):
+            inner = []
+        try:
+            inner.clear()
+        except Exception:  # noqa
+            inner = []
+        _QUEUE_TYPE[:] = [type(inner).__name__]
+        conn._send_queue = RecQueue(inner, self)
         conn._sendlock = S.SchedLock(self.sched, on_event=self.on_lock, pre_event=self.pre_lock, name="_sendlock",
                                      reentrant=real_lock_is_reentrant()[0])
         conn._send = self.send_wrapper    # instance attribute: every `self._send(...)` of the real code goes through it
@@ -349,7 +416,8 @@ class Run:
                     self.expected[e["msg"][0]] = finalizer_datum(("builtins.object", 1000 + i, 0), e["msg"][0])
         for mid, data in self.expected.items():
             self.id_of_data[data] = mid
-        self.inexpressible = []
+        self.regrouped = set()            # numbers of writes per packet other than 1 or 3 that were seen
+        self.model_pieces = 0             # model pieces of the packet in hand that are on the wire
         for t in range(self.n_os):
             self.sched.spawn(t, self.body, t)
 
@@ -445,15 +513,27 @@ class Run:
             data = self.data_of(mid)
             if data is None or k >= len(self.pieces(data)) or self.pieces(data)[k] != chunk:
                 mid = "?"
-        if mid != "?" and len(self.pieces(self.data_of(mid))) not in (1, 3):
-            self.inexpressible.append(mid)
+        # the model knows packets of 1 or 3 pieces; if Channel.send makes another number n of writes for a packet
+        # (a harmless refactoring), they are regrouped: first write = piece 0, last write = piece 2, the first of the
+        # middle ones = piece 1 (n = 2: the second write counts as pieces 1 and 2)
+        n = len(self.pieces(self.data_of(mid))) if mid != "?" else 1
+        if n == 1:
+            model = [0]
+        elif k == 0:
+            model = [0]
+        elif k == n - 1:
+            model = [1, 2] if n == 2 else [2]
+        else:
+            model = [1] if k == 1 else []
+        if n not in (1, 3):
+            self.regrouped.add(n)
         self.hook("w", "b", "_channel", packet=(mid, k))
         if self.fail is not None and not self.dead and (mid, k) == self.fail:
             self.dead = True
             self.tok("D")
         if self.dead:
             self.stream.closed = True
-            self.log("f", mid, k)
+            self.log("f", mid, self.hand[1] if self.hand is not None else k)
             if self.hand is not None:
                 if not self.lost and not self.stub:
                     self.stub = self.hand[1]
@@ -461,12 +541,12 @@ class Run:
                 self.hand = None
             raise EOFError("injected transport failure")
         self.raw += chunk
-        self.log("w", mid, k)
+        for j in model:
+            self.log("w", mid, j)
         self.writes_since_pop[lt] = k + 1
         if self.hand is not None:
-            self.hand[1] += 1
-            data = self.data_of(self.hand[0])
-            if data is None or self.hand[1] >= len(self.pieces(data)):
+            self.hand[1] += len(model)
+            if mid == "?" or k + 1 >= n:
                 self.hand = None
         self.hook("w", "a", "_channel", packet=(mid, k))
 
@@ -595,7 +675,7 @@ class Run:
         """the impl-side final-state line, from the real objects"""
         sc = self.sched
         done = sc.all_finished() and not sc.errors()
-        q = [self.ident(x) for x in list.__iter__(self.conn._send_queue)]
+        q = [self.ident(x) for x in self.conn._send_queue.items()]
         ids, _trailing, _problem = self.wire_packets()
         hand = "-" if self.hand is None else "%s.%d" % (self.hand[0], self.hand[1])
         order = True
@@ -702,7 +782,7 @@ def state_key(run):
     sc = run.sched
     lock = run.conn._sendlock
     return (tuple(sc.signature(t) for t in sc.order),
-            tuple(run.ident(x) for x in list.__iter__(run.conn._send_queue)),
+            tuple(run.ident(x) for x in run.conn._send_queue.items()),
             (lock.held, lock.owner, lock.count), run.dead,
             run.next_lt, tuple(sorted(run.fired)), tuple(len(run.call_order[t]) for t in range(run.n_os)),
             tuple(tuple(run.lstack[t]) for t in range(run.n_os)),
@@ -857,16 +937,16 @@ class Batch:
         self.pending = []
 
     def add(self, family, conf, run, res):
-        if run.inexpressible:
-            self.c.error = "Channel.send made %d writes for one packet; the model knows 1 or 3" % len(
-                run.pieces[run.inexpressible[0]])
+        if run.regrouped:
+            self.c.count("Channel.send-writes-per-big-packet:%s(regrouped-into-3-model-pieces)"
+                         % ",".join(str(n) for n in sorted(run.regrouped)))
         line = run.op_line()
         want = run.facts(res)
         case = dict(kind="schedule", progs=conf["progs"], reent=conf["reent"], fail=conf.get("fail"),
                     dumpyield=conf.get("dumpyield", []), schedule=list(res.schedule))
         if run.dead and run.sched.all_finished():
             self.c.count("after-failed-write:all-returned")
-            if list.__len__(run.conn._send_queue):
+            if run.conn._send_queue.items():
                 self.c.count("after-failed-write:all-returned-with-messages-left-queued")
             if run.conn._sendlock.locked():
                 self.c.count("after-failed-write:LOCK-LEAKED")
@@ -1090,6 +1170,7 @@ def correspondence(ctx):
     batch.flush()
     ctx.log("random schedules: %d (%.1fs)" % (done_rand, time.time() - t_rand))
     c.extra["sendlock_type_installed_by_constructor"] = real_lock_is_reentrant()[1]
+    c.extra["send_queue_type_installed_by_constructor"] = _QUEUE_TYPE[-1] if _QUEUE_TYPE else None
     try:
         c.extra["real_connection_after_failed_write"] = failed_write_probe()
     except Exception as ex:  # noqa - evidence only
@@ -1211,7 +1292,7 @@ def oracle(run, res):
         return ("senders still running after %d steps (no configuration needs more than a few hundred)"
                 % len(res.schedule), "livelock")
     if sc.all_finished() and not run.dead:
-        q = [run.ident(x) for x in list.__iter__(run.conn._send_queue)]
+        q = [run.ident(x) for x in run.conn._send_queue.items()]
         if q:
             return "all senders returned but message(s) %s are still queued" % q, "stranded"
         issued = [i for called in run.call_order.values() for i in called]
